@@ -45,7 +45,7 @@ LEVEL_TEXT = ('All histories up to length 2 (thorough: 3) over a 22-operation al
               'Fault enumeration: the faults are file deletion, emptying, re-creation and touch at every position.')
 LEVEL_NOTE = 'trusted: a newly constructed Enforcer as the oracle of "what the current files mean"; os.utime for the clock'
 PLAN = {'quick': dict(shards=8, wall=150), 'thorough': dict(shards=16, wall=500)}
-MIN = {'evaluations': 1000, 'steps_compared': 3000, 'deletions': 300, 'reloads_observed': 500,
+MIN = {'steps_where_the_fresh_enforcer_decides_first': 300, 'evaluations': 1000, 'steps_compared': 3000, 'deletions': 300, 'reloads_observed': 500,
        'ref_default_steps': 300, 'ref_target_changes': 100}
 ANCHORS = ['oslo_policy._cache_handler:read_cached_file', 'oslo_policy.policy:Enforcer._is_directory_updated',
            'oslo_policy.policy:Enforcer.load_rules', 'oslo_policy.policy:Enforcer._load_policy_file',
@@ -233,10 +233,18 @@ def run_history(ctx, case):
             if i in skip:                          # several edits between two enforcements
                 continue
             was_loaded = loaded
-            got = decisions(enf, names, creds)
+            if i % 2:
+                # the freshly started enforcer looks at the files FIRST (another worker of the same service, started after the
+                # change): what it reads must not take anything away from the long-lived one
+                fresh = mk()
+                want = decisions(fresh, names, creds)
+                ctx.count('steps_where_the_fresh_enforcer_decides_first')
+                got = decisions(enf, names, creds)
+            else:
+                got = decisions(enf, names, creds)
+                fresh = mk()
+                want = decisions(fresh, names, creds)
             loaded = True
-            fresh = mk()
-            want = decisions(fresh, names, creds)
             ctx.count('steps_compared')
             if defs is not None:
                 ctx.count('ref_default_steps')
